@@ -276,5 +276,5 @@ def run_shard(ctx: core.Ctx) -> core.ShardResult:
     core.run_hypothesis(ctx, res, syn_cases(), check, ctx.n(300, 5000),
                         sub=1)
     core.run_hypothesis(ctx, res, comp_cases(quick), check, ctx.n(10, 100),
-                        shrink=False, sub=2)
+                        shrink=False, sub=2, min_cases=2)
     return res
